@@ -102,6 +102,8 @@ pub fn c01(ctx: &mut Ctx, tier: &str, seed: u64) {
 pub fn c02(ctx: &mut Ctx, tier: &str, seed: u64) {
     let dom = dom_win(tier, seed);
     for s in &dom {
+        let rp = format!("comps w {}", hex(s));
+        at(rp.clone());
         let p = WindowsPath::new(s);
         let d = spec::win_decomp(s);
         let got: Vec<WindowsComponent> = p.components().collect();
@@ -112,8 +114,6 @@ pub fn c02(ctx: &mut Ctx, tier: &str, seed: u64) {
         };
         ctx.tally(&format!("prefix={}", kind));
         ctx.case(nontrivial_path(&got_sc), s);
-        let rp = format!("comps w {}", hex(s));
-        at(rp.clone());
         if got_sc != d.comps {
             ctx.fail("decomposition-vs-grammar", None, rp.clone(), format!("impl {} grammar {}", show_sc(&got_sc), show_sc(&d.comps)));
             continue;
@@ -362,10 +362,10 @@ pub fn c04(ctx: &mut Ctx, tier: &str, seed: u64) {
         for base in &bases {
             let cb = spec::canon(&spec_comps(win, base));
             for p in &args {
-                let v = spec::verdict(&spec_comps(win, p), win);
-                let (buf, r) = push_checked_b(win, base, p);
                 let rp = format!("pushc {} {} {}", e, hex(base), hex(p));
                 at(rp.clone());
+                let v = spec::verdict(&spec_comps(win, p), win);
+                let (buf, r) = push_checked_b(win, base, p);
                 ctx.tally(&format!("{}:{:?}", e, v));
                 ctx.case(spec_comps(win, p).len() >= 2 || v != spec::Verdict::Ok, (win, base, p));
                 match &r {
@@ -465,9 +465,9 @@ pub fn c05(ctx: &mut Ctx, tier: &str, seed: u64) {
         let mut hu: HashSet<UnixPathBuf> = HashSet::new();
         let mut bu: BTreeSet<UnixPathBuf> = BTreeSet::new();
         for (a, b) in &pairs {
-            let (ca, cb) = (comps(win, a), comps(win, b));
             let rp = format!("rel {} {} {}", e, hex(a), hex(b));
             at(rp.clone());
+            let (ca, cb) = (comps(win, a), comps(win, b));
             let (eq, ord, ha, hb) = if win {
                 let (pa, pb) = (WindowsPath::new(a), WindowsPath::new(b));
                 (pa == pb, pa.cmp(pb), hash_chunks(pa), hash_chunks(pb))
